@@ -49,6 +49,7 @@ class GCtx(SymCtx):
         self.mode = mode            # 'kernel' | 'ctor'
         self.maxdefs = {}
         self.lit_block = None           # ctor mode: block of the struct literal being evaluated
+        self.allow_loop_atoms = True    # off while the conditions dominating the literal are read (a loop's own exit test says nothing about scratch)
         self._reach = None
         self.not_understood = False     # some condition on a relevant path could not be expressed: no refutation then
         self.callsite = {}          # callee body id -> (caller body, call terminator, tupled?) : the one calling context being judged
@@ -178,7 +179,7 @@ class GCtx(SymCtx):
                 return Poly.atom(self.inner_atom(("ctor", recv[1]), what))
             if self.mode == "ctor" and recv[0] == "multi":
                 return Poly.atom(self.inner_atom(("ctorlocal", recv[1]), what))
-        if self.mode == "ctor" and isinstance(e, tuple) and e[0] == "multi" and self.lit_block is not None:
+        if self.mode == "ctor" and isinstance(e, tuple) and e[0] == "multi" and self.lit_block is not None and self.allow_loop_atoms:
             # a loop-carried local (`cross_fft_len *= radix`) read after its loop: one opaque value, provided no assignment
             # of it can still follow the struct literal (all reads we evaluate then see the final value)
             try:
@@ -203,7 +204,7 @@ class GCtx(SymCtx):
         if depth > 14 or not isinstance(e, tuple):
             raise Undecided("depth")
         k = e[0]
-        if k == "multi" and self.mode == "ctor" and self.lit_block is not None and depth < 14:
+        if k == "multi" and self.mode == "ctor" and self.lit_block is not None and self.allow_loop_atoms and depth < 14:
             try:
                 return self._symg_multi(b, e, depth, seen)
             except Undecided:
@@ -388,18 +389,29 @@ def _struct_cases(F, K, adt):
 
         try:
             lbi = next(i for i, bb in enumerate(cb.blocks) if any(x is n for x in bb["s"]))
-            lit_conds, _ok = ctx.conditions(cb, lbi)
+            ctx.allow_loop_atoms = False
+            try:
+                lit_conds, _ok = ctx.conditions(cb, lbi)
+            finally:
+                ctx.allow_loop_atoms = True
             if not _ok:
                 ctx.not_understood = True
         except (StopIteration, Undecided, RecursionError):
             lit_conds = []
             ctx.not_understood = True
+        def keep(c):
+            """Drop pure loop bookkeeping (`cross_fft_len >= len` at the exit of the twiddle loop): a relation between the final
+            value of a loop variable and length quantities only, with no scratch requirement in it."""
+            ats = c[0].atoms() | c[2].atoms()
+            if any(a[0] == "ctorloop" for a in ats) and not any(a[0] == "inner" and a[2] != "len" for a in ats):
+                return False
+            return True
         canon = {}
         for path, gv in list(fields.items()) + [(("len",) + k, v) for k, v in slens.items()]:
             if gv is None:
                 canon[path] = None
             else:
-                canon[path] = [([(canon_poly(l), op, canon_poly(r)) for (l, op, r) in conds], canon_poly(p)) for (conds, p) in gv]
+                canon[path] = [([(canon_poly(l), op, canon_poly(r)) for (l, op, r) in conds if keep((l, op, r))], canon_poly(p)) for (conds, p) in gv]
         canon["__asserts__"] = [(canon_poly(l), op, canon_poly(r)) for (l, op, r) in lit_conds]
         canon["__not_understood__"] = ctx.not_understood
         canon["__facts__"] = [canon_poly(f) for f in ctx.facts]
